@@ -425,7 +425,17 @@ pub fn replay(parser: &dyn Parser) {
 const KNOWN: &[&str] = &["Host", "Accept", "Accept-Encoding", "Accept-Language", "User-Agent", "Referer", "Connection", "Cache-Control",
     "Content-Type", "Authorization", "Origin", "Via", "Pragma", "Upgrade", "Date", "ETag", "Link", "Age", "Allow", "Server", "Expect", "From",
     "Warning", "Forwarded", "Location", "Content-Encoding", "Access-Control-Request-Method"];
-const CUSTOM: &[&str] = &["X-A", "X-B", "x-dup", "X-Request-Id", "x_under", "X.Dot", "Sec-Fetch-Mode", "DNT", "X~T!#$&'*+^`|"];
+// names Humphrey's table does not know today - made-up ones and the registered request fields a later version of
+// the table might learn (a name added to the parser's table but not to the serialiser's loses its spelling on relay)
+const CUSTOM: &[&str] = &["X-A", "X-B", "x-dup", "X-Request-Id", "x_under", "X.Dot", "Sec-Fetch-Mode", "DNT", "X~T!#$&'*+^`|",
+    "If-Match", "If-None-Match", "If-Modified-Since", "If-Unmodified-Since", "If-Range", "Range", "TE", "Trailer", "Max-Forwards",
+    "Proxy-Authorization", "Keep-Alive", "Priority", "Early-Data", "Content-Range", "Content-Location", "Content-Language",
+    "Content-Disposition", "Content-MD5", "Upgrade-Insecure-Requests", "Save-Data", "Sec-CH-UA", "Sec-Fetch-Site", "Sec-Fetch-Dest",
+    "Sec-Fetch-User", "Sec-GPC", "Sec-WebSocket-Key", "Sec-WebSocket-Version", "Sec-WebSocket-Protocol", "Sec-WebSocket-Extensions",
+    "Want-Digest", "Digest", "Prefer", "A-IM", "Alt-Used", "X-Requested-With", "X-Forwarded-Host", "X-Forwarded-Proto", "X-Real-IP",
+    "X-CSRF-Token", "Idempotency-Key", "Traceparent", "Tracestate", "Baggage", "CDN-Loop", "Accept-Charset", "Accept-Datetime",
+    "Access-Control-Request-Headers", "HTTP2-Settings", "Proxy-Connection", "Depth", "Destination", "Overwrite", "If", "Lock-Token",
+    "SOAPAction", "Last-Event-ID", "Ping-From", "Ping-To", "Service-Worker", "Device-Memory", "Downlink", "ECT", "RTT", "Viewport-Width"];
 // one representative per Unicode class (Rust's char predicates, case mappings and trim are Unicode-aware)
 /// non-ASCII White_Space: NBSP, NEL (a C1 control), OGHAM SPACE MARK, LINE SEPARATOR, IDEOGRAPHIC SPACE
 const WS_UNI: &[&str] = &["\u{a0}", "\u{85}", "\u{1680}", "\u{2028}", "\u{3000}"];
